@@ -23,13 +23,14 @@ Reading guide.
   received its rescaling, which lies in the box for *every* stored value (`unscale_action` clips, fix 933445d).
 -/
 import SB3Verif.Lemmas.OffPolicy
+import SB3Verif.Props.C04C03
 
 set_option linter.unusedSectionVars false
 set_option linter.unusedVariables false
 
 namespace SB3Verif.C04
 
-open SB3Verif.OffPolicy SB3Verif.Lemmas.OffPolicy
+open SB3Verif.OffPolicy SB3Verif.Lemmas.OffPolicy SB3Verif.Lemmas.OffPolicyReplay
 
 /-! ## Action algebra (any ordered field) -/
 
@@ -202,6 +203,67 @@ theorem noise_reset_index (cfg : Cfg α) (st : St α) (x : StepIn α) (i : Nat) 
   | some es =>
     simp only [body, hn, mem_trueIdx, dummyStep, Nat.zero_le, true_and, Nat.sub_zero, Option.isSome_some]
     rfl
+
+/-- **Stored action and environment action of a step come from one `_sample_action` call**: for every collected
+step there are a noise sample and policy outputs such that the env actions are the first and the stored actions
+the second components of `sampleActions` (so `env_action_is_unscaled_buffer_action` applies to every row). -/
+theorem stored_and_env_action_paired (cfg : Cfg α) (calls : List (Call α))
+    (hwf : ∀ c ∈ calls, c.wf cfg = true) (hrt : ∀ c ∈ calls, CallRoundTrip c) (hp : PostTrivialUnderVN cfg) :
+    ∀ o ∈ (run cfg calls).st.trace, ∃ (noise : Option (List (List α))) (us : List (List α)),
+      o.action = (sampleActions cfg.space noise us).map (·.1) ∧
+      o.row.action = (sampleActions cfg.space noise us).map (·.2) :=
+  (inv_run cfg calls hwf hrt hp).paired
+
+/-! ### End to end with the replay buffer of C03 (proved in `Props/C04C03.lean`, re-exported here so that the
+axiom audit of this file covers them) -/
+
+/-- see `C04C03.sampled_is_env_transition`: every `(slot, env)` pair that can be sampled from the standard replay
+buffer after any off-policy run without `VecNormalize` holds one of the environments' own last-`capacity`
+transitions (observation acted on, true successor, raw reward, stored action, masked done). -/
+theorem sampled_is_env_transition (T : Tagging α) (cfg : Cfg α) (calls : List (Call α)) (rc : Replay.Cfg)
+    (hv : cfg.vecNormalize = false) (hwf : ∀ c ∈ calls, c.wf cfg = true) (hn : rc.nEnvs = cfg.nEnvs)
+    (hm : rc.memopt = false) (s e : ℕ)
+    (h : (s, e) ∈ (Replay.run rc (toOps T (run cfg calls).st.buffer)).domain) :
+    ∃ a ts t o, a < (run cfg calls).w.log.length ∧ (run cfg calls).w.log.length ≤ a + rc.cap ∧ a % rc.cap = s ∧
+      e < cfg.nEnvs ∧
+      (run cfg calls).w.log[a]? = some ts ∧ ts[e]? = some t ∧
+      (run cfg calls).st.trace[a]? = some o ∧ o.action[e]? = some t.action ∧
+      ((Replay.run rc (toOps T (run cfg calls).st.buffer)).get s e).obs = T.obs (cfg.post t.obs) ∧
+      ((Replay.run rc (toOps T (run cfg calls).st.buffer)).get s e).next = T.obs (cfg.post t.next) ∧
+      ((Replay.run rc (toOps T (run cfg calls).st.buffer)).get s e).rew = T.rew t.rew ∧
+      ((Replay.run rc (toOps T (run cfg calls).st.buffer)).get s e).act = T.act (o.row.action.getD e []) ∧
+      ((Replay.run rc (toOps T (run cfg calls).st.buffer)).get s e).done =
+        if (t.term || t.trunc) && !(rc.hto && (t.trunc && !t.term)) then 1 else 0 :=
+  C04C03.sampled_is_env_transition T cfg calls rc hv hwf hn hm s e h
+
+/-- see `C04C03.recent_env_transition_is_drawable`: each of the last `capacity` vectorised steps, each env, can be
+sampled. -/
+theorem recent_env_transition_is_drawable (T : Tagging α) (cfg : Cfg α) (calls : List (Call α)) (rc : Replay.Cfg)
+    (hv : cfg.vecNormalize = false) (hwf : ∀ c ∈ calls, c.wf cfg = true) (hn : rc.nEnvs = cfg.nEnvs)
+    (hm : rc.memopt = false) (a e : ℕ) (ha : a < (run cfg calls).w.log.length)
+    (hr : (run cfg calls).w.log.length ≤ a + rc.cap) (he : e < cfg.nEnvs) :
+    (a % rc.cap, e) ∈ (Replay.run rc (toOps T (run cfg calls).st.buffer)).domain :=
+  C04C03.recent_env_transition_is_drawable T cfg calls rc hv hwf hn hm a e ha hr he
+
+/-- see `C04C03.sampled_is_env_transition_memopt_partial`: the memory-optimised variant under the chaining
+hypothesis — own successor for non-terminal transitions and the newest one (K-C03-a otherwise). -/
+theorem sampled_is_env_transition_memopt_partial (T : Tagging α) (cfg : Cfg α) (calls : List (Call α))
+    (rc : Replay.Cfg) (hv : cfg.vecNormalize = false) (hwf : ∀ c ∈ calls, c.wf cfg = true)
+    (hn : rc.nEnvs = cfg.nEnvs) (hm : rc.memopt = true)
+    (hch : Replay.Chained ((run cfg calls).st.buffer.map (toRow T))) (s e : ℕ)
+    (h : (s, e) ∈ (Replay.run rc (toOps T (run cfg calls).st.buffer)).domain) :
+    ∃ a ts t o, a < (run cfg calls).w.log.length ∧ (run cfg calls).w.log.length < a + rc.cap ∧ a % rc.cap = s ∧
+      e < cfg.nEnvs ∧
+      (run cfg calls).w.log[a]? = some ts ∧ ts[e]? = some t ∧
+      (run cfg calls).st.trace[a]? = some o ∧ o.action[e]? = some t.action ∧
+      ((Replay.run rc (toOps T (run cfg calls).st.buffer)).get s e).obs = T.obs (cfg.post t.obs) ∧
+      ((Replay.run rc (toOps T (run cfg calls).st.buffer)).get s e).rew = T.rew t.rew ∧
+      ((Replay.run rc (toOps T (run cfg calls).st.buffer)).get s e).act = T.act (o.row.action.getD e []) ∧
+      ((Replay.run rc (toOps T (run cfg calls).st.buffer)).get s e).done =
+        (if (t.term || t.trunc) && !(rc.hto && (t.trunc && !t.term)) then 1 else 0) ∧
+      ((t.term || t.trunc) = false ∨ a + 1 = (run cfg calls).w.log.length →
+        ((Replay.run rc (toOps T (run cfg calls).st.buffer)).get s e).next = T.obs (cfg.post t.next)) :=
+  C04C03.sampled_is_env_transition_memopt_partial T cfg calls rc hv hwf hn hm hch s e h
 
 end Mechanism
 
